@@ -27,6 +27,8 @@
 (*   P.ep = <<<<char, index>>, ...>> entry points (0-based indices),       *)
 (*   P.packed = 1 when they are raw TFM remainders (restart rule applies)  *)
 (*   P.lbe = bchar_label (0-based) or -1;  P.rbc = font bchar or 256       *)
+(*   P.lbf (optional) = the left-boundary entry field of an in-memory      *)
+(*   converted program, see Deviations                                     *)
 (* Items of the output: <<0, c>> character, <<1, c, originals, lft, rt>>   *)
 (* ligature, <<2, amount>> kern.                                           *)
 (***************************************************************************)
@@ -36,6 +38,9 @@ EXTENDS Integers, Sequences, FiniteSets
 \*  "PhantomLigature": an instruction with skip_byte > 128 that is reached through a chain (or sits
 \*      at an unpacked entry point) is executed as if its op_byte/remainder were a command
 \*      (compiler.rs: "reimplements the phantom ligature bug in tftopl"); TeX never executes it.
+\*  "StaleLeftBoundaryEntry": a program that went through Program::pack_entrypoints in memory keeps
+\*      its left-boundary entry point field at the index it had before the instructions were
+\*      rotated; compile starts the left-boundary program there (P.lbf) and not at bchar_label.
 CONSTANT Deviations
 
 \* Seeded defects for the negative controls ("" = none); see NEG_LigKern_*.cfg
@@ -56,7 +61,8 @@ EpIndex(P, c) == LET S == {j \in 1..Len(P.ep) : P.ep[j][1] = c}
 
 \* lig_kern_start, and lig_kern_restart when the first instruction has skip_byte > 128
 Start(P, c) ==
-  IF c = NonChar THEN P.lbe
+  IF c = NonChar
+  THEN IF "StaleLeftBoundaryEntry" \in Deviations /\ "lbf" \in DOMAIN P THEN P.lbf ELSE P.lbe
   ELSE LET e == EpIndex(P, c) IN
        IF e < 0 \/ e >= Len(P.ins) THEN -1
        ELSE IF P.packed = 1 /\ P.ins[e + 1][3] = StopOp THEN P.ins[e + 1][4] ELSE e
@@ -93,7 +99,7 @@ ChainRcs(P, k) ==
        IF i[3] = StopOp THEN {}
        ELSE {i[2]} \cup (IF i[1] < 0 THEN {} ELSE ChainRcs(P, k + i[1] + 1))
 
-Lefts(P) == {P.ep[j][1] : j \in 1..Len(P.ep)} \cup (IF P.lbe >= 0 THEN {NonChar} ELSE {})
+Lefts(P) == {P.ep[j][1] : j \in 1..Len(P.ep)} \cup (IF Start(P, NonChar) >= 0 THEN {NonChar} ELSE {})
 
 \* every pair that has a lig/kern instruction
 RulePairs(P) == UNION { { <<l, r>> : r \in ChainRcs(P, Start(P, l)) } : l \in Lefts(P) }
@@ -120,7 +126,7 @@ TeXInit(P, w, nl, bc) ==
   LET base == [pc |-> "main_loop_move_1", out |-> <<>>, acc |-> <<>>, cl |-> w[1], cr |-> NonChar,
                stk |-> <<CharNode(w[1])>>, lp |-> FALSE, lh |-> FALSE, rh |-> FALSE,
                bc |-> bc, rest |-> Tail(w)]
-  IN IF nl = 0 /\ P.lbe >= 0
+  IN IF nl = 0 /\ Start(P, NonChar) >= 0
      THEN [base EXCEPT !.cr = w[1], !.cl = NonChar, !.pc = "main_lig_loop"]
      ELSE base
 
